@@ -163,8 +163,8 @@ fn recv_amt(malicious: bool) -> BoxedStrategy<RecvAmt> {
 }
 
 fn op(prop: &str, malicious: bool) -> BoxedStrategy<Op> {
-    let send_n = (user(), prop_oneof![15 => 0u8..3, 1 => Just(3u8)], 0u8..N_NATIVE as u8, send_amt(), proptest::option::weighted(0.4, 1u32..5000), memo()).prop_map(|(by, ch, denom, amt, timeout, memo)| Op::SendNative { by, ch, denom, amt, timeout, memo }).boxed();
-    let send_c = (user(), prop_oneof![15 => 0u8..3, 1 => Just(3u8)], 0u8..N_CW20 as u8, send_amt(), proptest::option::weighted(0.4, 1u32..5000), memo()).prop_map(|(by, ch, tok, amt, timeout, memo)| Op::SendCw20 { by, ch, tok, amt, timeout, memo }).boxed();
+    let send_n = (user(), prop_oneof![15 => 0u8..3, 1 => Just(3u8)], 0u8..N_NATIVE as u8, send_amt(), prop_oneof![6 => Just(None), 1 => Just(Some(0u32)), 1 => Just(Some(1u32)), 3 => (1u32..5000).prop_map(Some)], memo()).prop_map(|(by, ch, denom, amt, timeout, memo)| Op::SendNative { by, ch, denom, amt, timeout, memo }).boxed();
+    let send_c = (user(), prop_oneof![15 => 0u8..3, 1 => Just(3u8)], 0u8..N_CW20 as u8, send_amt(), prop_oneof![6 => Just(None), 1 => Just(Some(0u32)), 1 => Just(Some(1u32)), 3 => (1u32..5000).prop_map(Some)], memo()).prop_map(|(by, ch, tok, amt, timeout, memo)| Op::SendCw20 { by, ch, tok, amt, timeout, memo }).boxed();
     let deliver = any::<u16>().prop_map(|pkt| Op::Deliver { pkt }).boxed();
     let recv = (0u8..3, 0u8..N_TOK as u8, proptest::option::weighted(0.8, any::<u16>()), form(malicious), recv_amt(malicious), prop_oneof![12 => 0u8..N_USERS as u8, 1 => Just(N_USERS as u8)], proptest::bool::weighted(0.2), proptest::bool::weighted(0.2))
         .prop_map(|(ch, tok, live, form, amt, receiver, payout_fails, memo)| Op::Recv { ch, tok, live, form, amt, receiver, payout_fails, memo })
@@ -1327,7 +1327,7 @@ pub fn decode_case(prop: &str, u: &mut arbitrary::Unstructured) -> Case {
     let mut ops = vec![];
     for _ in 0..n_ops {
         let ch = if arb_bool(u, 1, 16) { 3 } else { arb_below(u, 3) as u8 };
-        let timeout = if arb_bool(u, 2, 5) { Some(1 + u.arbitrary::<u16>().unwrap_or(0) as u32 % 5000) } else { None };
+        let timeout = if arb_bool(u, 2, 5) { Some(u.arbitrary::<u16>().unwrap_or(0) as u32 % 5000) } else { None };
         let op = match arb_below(u, 16) {
             0 | 1 => Op::SendNative { by: arb_below(u, N_USERS) as u8, ch, denom: arb_below(u, N_NATIVE) as u8, amt: d_send_amt(u), timeout, memo: d_memo(u) },
             2 | 3 => Op::SendCw20 { by: arb_below(u, N_USERS) as u8, ch, tok: arb_below(u, N_CW20) as u8, amt: d_send_amt(u), timeout, memo: d_memo(u) },
